@@ -33,8 +33,9 @@ documented default.  More arguments than parameters is `Res.err .parity`
 `StrF.apply name args` dispatches on the filter name; `StrF.recvToString` is the receiver
 conversion (`nil ⇒ ""`, ints and bools ⇒ what `fmt.Sprint` prints) used by the `strfv` driver op.
 
-Outside the model (`unmodelled`): case mapping outside the table of `Liquid/Unicode.lean`;
-named HTML entities other than `amp lt gt quot apos` (Go's 2231-entry table is not reproduced).
+Outside the model (`unmodelled`): named HTML entities other than `amp lt gt quot apos` (Go's 2231-entry
+table is not reproduced). Case mapping is total: `Liquid/Unicode.lean` looks every rune up in the tables
+translator T6 regenerates from the toolchain's `unicode.ToUpper` / `ToLower`.
 -/
 
 namespace StrF
@@ -44,8 +45,16 @@ namespace StrF
 def append (s suffix : Bytes) : Bytes := s ++ suffix
 def prepend (s pre : Bytes) : Bytes := pre ++ s
 
-/-! ## case (`strings.ToUpper`, `strings.ToLower`: `strings.Map` over the runes; an invalid byte
-becomes U+FFFD) -/
+/-! ## case (`strings.ToUpper`, `strings.ToLower`)
+
+`strings.ToUpper(s)` (go1.23 `strings/strings.go`) first scans the bytes. If **every** byte is below 0x80 it
+takes a byte loop (`'a'..'z'` minus 32, the rest copied) — on such a string that is the rune map below, since
+`unicode.ToUpper` moves no other ASCII rune (`upcase_ascii`). A string with a byte ≥ 0x80 anywhere — an invalid
+byte included — never takes that loop: it goes to `strings.Map(unicode.ToUpper, s)`, which ranges over the runes
+of `s` (an invalid byte reads as U+FFFD, width 1), keeps the input while nothing changes and from the first
+change on writes `mapping(c)` with `WriteRune`; an invalid byte counts as a change (`c == RuneError` and the
+width is 1) and is written as the three bytes of U+FFFD. Both paths together are: decode, map every rune, encode.
+`ToLower` is the same with `'A'..'Z'` plus 32. -/
 
 def mapRunesM (f : Rune → Option Rune) : List Rune → Option (List Rune)
   | [] => some []
@@ -54,11 +63,20 @@ def mapRunesM (f : Rune → Option Rune) : List Rune → Option (List Rune)
     | some a, some as => some (a :: as)
     | _, _ => none
 
-/-- `none` = a rune outside the modelled case table -/
+/-- `strings.ToUpper`. The `Option` is historical (the case table used to be partial): the answer is `some` for
+every string (`upcase_total`, `Proofs/C16.lean`), namely `some (upcaseT s)`. -/
 def upcase (s : Bytes) : Option Bytes := (mapRunesM upperRune (decodeRunes s)).map encodeRunes
+/-- `strings.ToLower`; `some (downcaseT s)` for every string -/
 def downcase (s : Bytes) : Option Bytes := (mapRunesM lowerRune (decodeRunes s)).map encodeRunes
 
-/-- fixed code (D16): `_, w := utf8.DecodeRuneInString(s); strings.ToUpper(s[:w]) + s[w:]` -/
+/-- `strings.ToUpper` as a total function -/
+def upcaseT (s : Bytes) : Bytes := encodeRunes ((decodeRunes s).map toUpperRune)
+/-- `strings.ToLower` as a total function -/
+def downcaseT (s : Bytes) : Bytes := encodeRunes ((decodeRunes s).map toLowerRune)
+
+/-- fixed code (D16): `_, w := utf8.DecodeRuneInString(s); strings.ToUpper(s[:w]) + s[w:]` — the first rune is
+*upper*-cased (`unicode.ToUpper`, not `ToTitle`: `ǆ` becomes `Ǆ`, not `ǅ`), an invalid first byte becomes U+FFFD,
+the rest of the bytes is copied. `some` for every string (`capitalize_total`). -/
 def capitalize (s : Bytes) : Option Bytes :=
   match s with
   | [] => some []
